@@ -163,6 +163,160 @@ Proof.
 Qed.
 
 (* ------------------------------------------------------------------ *)
+(* 2b. handles on cells: facts about the heap and about the oracle's state machine *)
+
+(* cells and handles *)
+Lemma cell_store_length cs : forall a v, length (cell_store cs a v) = length cs.
+Proof. induction cs as [|c r IH]; intros [|a] v; cbn; auto. Qed.
+
+Lemma cell_load_store_same cs : forall a v, (a < length cs)%nat -> cell_load (cell_store cs a v) a = v.
+Proof.
+  unfold cell_load. induction cs as [|c r IH]; intros [|a] v H; cbn in *; try lia; auto.
+  apply IH. lia.
+Qed.
+
+Lemma cell_load_store_other cs : forall a b v, a <> b -> cell_load (cell_store cs a v) b = cell_load cs b.
+Proof.
+  unfold cell_load. induction cs as [|c r IH]; intros [|a] [|b] v H; cbn; auto; try congruence.
+Qed.
+
+Lemma cell_store_load_id cs : forall a, cell_store cs a (cell_load cs a) = cs.
+Proof.
+  unfold cell_load. induction cs as [|c r IH]; intros [|a]; cbn; auto. now rewrite IH.
+Qed.
+
+Lemma with_cells_id w : with_cells w (w_cells w) = w.
+Proof. destruct w; reflexivity. Qed.
+
+(* every handle points into the heap *)
+Definition wf_world (w : world) : Prop :=
+  forall k a, In (k, a) (w_holders w) -> (a < length (w_cells w))%nat.
+(* the level holder h's handle gives access to *)
+Definition level_seen (w : world) (h : nat) : option Z := option_map (cell_load (w_cells w)) (handle_of w h).
+Definition spec_sh_final (w : world) (ops : list sop) : world := fold_left spec_sh_step ops w.
+
+Lemma handle_of_in w h a : handle_of w h = Some a -> exists k, In (k, a) (w_holders w).
+Proof.
+  unfold handle_of. destruct (nth_error (w_holders w) h) as [[k a']|] eqn:E; cbn; [|discriminate].
+  intros [= ->]. exists k. eapply nth_error_In, E.
+Qed.
+
+Lemma handle_of_app w h a ext cs :
+  handle_of w h = Some a -> handle_of {| w_cells := cs; w_holders := w_holders w ++ ext |} h = Some a.
+Proof.
+  unfold handle_of. cbn. destruct (nth_error (w_holders w) h) as [x|] eqn:E; cbn; [|discriminate].
+  intros H. rewrite nth_error_app1; [now rewrite E|]. apply nth_error_Some. congruence.
+Qed.
+
+(* no operation re-points, reorders or drops a holder: the list only grows at the end *)
+Lemma spec_step_holders w o : exists ext, w_holders (spec_sh_step w o) = w_holders w ++ ext.
+Proof.
+  destruct o as [h k|l k|h t|h l|h r|]; cbn [spec_sh_step spec_update].
+  - destruct (handle_of w h); [exists [(k, n)]; reflexivity|exists []; now rewrite app_nil_r].
+  - eexists. reflexivity.
+  - exists []. rewrite app_nil_r. destruct (spec_parse t); cbn [option_map]; [destruct (handle_of w h)|]; reflexivity.
+  - exists []. rewrite app_nil_r. destruct (handle_of w h); reflexivity.
+  - exists []. rewrite app_nil_r. destruct (spec_names_level r); cbn [option_map]; [destruct (handle_of w h)|]; reflexivity.
+  - exists []. now rewrite app_nil_r.
+Qed.
+
+Lemma spec_step_nth w o h x : nth_error (w_holders w) h = Some x ->
+  nth_error (w_holders (spec_sh_step w o)) h = Some x.
+Proof.
+  intros H. destruct (spec_step_holders w o) as [ext ->].
+  rewrite nth_error_app1; [exact H|]. apply nth_error_Some. congruence.
+Qed.
+
+Lemma spec_step_handle w o h a : handle_of w h = Some a -> handle_of (spec_sh_step w o) h = Some a.
+Proof.
+  unfold handle_of. destruct (nth_error (w_holders w) h) as [x|] eqn:E; cbn; [|discriminate].
+  intros H. now rewrite (spec_step_nth w o h x E).
+Qed.
+
+Definition cell_after (w : world) (o : sop) (a : nat) (cur : Z) : Z :=
+  match spec_update o with
+  | Some (h, l) => match handle_of w h with
+                   | Some a' => if Nat.eqb a' a then l else cur
+                   | None => cur
+                   end
+  | None => cur
+  end.
+
+Lemma store_at cs a' a l : (a < length cs)%nat ->
+  cell_load (cell_store cs a' l) a = if Nat.eqb a' a then l else cell_load cs a.
+Proof.
+  intros H. destruct (Nat.eqb a' a) eqn:E.
+  - apply Nat.eqb_eq in E. subst a'. now apply cell_load_store_same.
+  - apply Nat.eqb_neq in E. now apply cell_load_store_other.
+Qed.
+
+(* one operation, seen from one cell: it holds the level of the update if the operation is an accepted
+   update addressed to a holder of this cell, and what it held before in every other case *)
+Lemma spec_step_cell w o a : (a < length (w_cells w))%nat ->
+  cell_load (w_cells (spec_sh_step w o)) a = cell_after w o a (cell_load (w_cells w) a) /\
+  (length (w_cells w) <= length (w_cells (spec_sh_step w o)))%nat.
+Proof.
+  intros Ha. unfold cell_after.
+  destruct o as [h k|l k|h t|h l|h r|]; cbn [spec_sh_step spec_update].
+  - destruct (handle_of w h); cbn; auto.
+  - cbn. rewrite app_length. split; [|lia]. unfold cell_load. now rewrite app_nth1.
+  - destruct (spec_parse t) as [l|]; cbn [option_map]; [|auto].
+    destruct (handle_of w h) as [a'|]; [|auto]. cbn [with_cells w_cells].
+    rewrite cell_store_length. split; [now apply store_at|lia].
+  - destruct (handle_of w h) as [a'|]; [|auto]. cbn [with_cells w_cells].
+    rewrite cell_store_length. split; [now apply store_at|lia].
+  - destruct (spec_names_level r) as [l|]; cbn [option_map]; [|auto].
+    destruct (handle_of w h) as [a'|]; [|auto]. cbn [with_cells w_cells].
+    rewrite cell_store_length. split; [now apply store_at|lia].
+  - auto.
+Qed.
+
+Lemma spec_step_wf w o : wf_world w -> wf_world (spec_sh_step w o).
+Proof.
+  intros Hw k a Hin.
+  assert (Hmono : forall k a, In (k, a) (w_holders w) -> (a < length (w_cells (spec_sh_step w o)))%nat).
+  { intros k' a' H'. specialize (Hw k' a' H'). destruct (spec_step_cell w o a' Hw) as [_ Hl]. lia. }
+  destruct o as [h k'|l k'|h t|h l|h r|]; cbn [spec_sh_step spec_update] in *.
+  - destruct (handle_of w h) as [g|] eqn:Eh; [|eauto]. cbn in Hin |- *.
+    apply in_app_or in Hin. destruct Hin as [Hin|[[= <- <-]|[]]]; [eauto|].
+    destruct (handle_of_in w h g Eh) as [k0 H0]. eauto.
+  - cbn in Hin |- *. rewrite app_length. cbn.
+    apply in_app_or in Hin. destruct Hin as [Hin|[[= <- <-]|[]]]; [|lia].
+    specialize (Hw k a Hin). lia.
+  - destruct (spec_parse t) as [l|]; cbn [option_map] in *; [|eauto].
+    destruct (handle_of w h); eauto.
+  - destruct (handle_of w h); eauto.
+  - destruct (spec_names_level r) as [l|]; cbn [option_map] in *; [|eauto].
+    destruct (handle_of w h); eauto.
+  - eauto.
+Qed.
+
+Lemma spec_final_wf ops : forall w, wf_world w -> wf_world (spec_sh_final w ops).
+Proof.
+  unfold spec_sh_final. induction ops as [|o rest IH]; intros w Hw; [exact Hw|].
+  cbn [fold_left]. apply IH, spec_step_wf, Hw.
+Qed.
+
+Lemma spec_final_nth ops : forall w h x, nth_error (w_holders w) h = Some x ->
+  nth_error (w_holders (spec_sh_final w ops)) h = Some x.
+Proof.
+  unfold spec_sh_final. induction ops as [|o rest IH]; intros w h x H; [exact H|].
+  cbn [fold_left]. apply IH, spec_step_nth, H.
+Qed.
+
+Lemma spec_final_cell ops : forall w a, (a < length (w_cells w))%nat ->
+  cell_load (w_cells (spec_sh_final w ops)) a = last_accepted w ops a (cell_load (w_cells w) a).
+Proof.
+  unfold spec_sh_final. induction ops as [|o rest IH]; intros w a Ha; [reflexivity|].
+  cbn [fold_left last_accepted]. destruct (spec_step_cell w o a Ha) as [Hc Hl].
+  rewrite IH by lia. rewrite Hc. reflexivity.
+Qed.
+
+Lemma level_seen_of w h k a : nth_error (w_holders w) h = Some (k, a) ->
+  level_seen w h = Some (cell_load (w_cells w) a).
+Proof. unfold level_seen, handle_of. now intros ->. Qed.
+
+(* ------------------------------------------------------------------ *)
 (* 3. soundness of the checker *)
 
 Section Checked.
@@ -540,6 +694,128 @@ Proof.
   intros r' Hin. apply Hall. now right.
 Qed.
 
+(* ---- one level, many holders ---- *)
+
+(* the model of level.go / http_handler.go over the heap IS the oracle's state machine *)
+Lemma sh_step_spec w o :
+  fst (sh_step d w o) = spec_sh_step w o /\ spec_res w o (snd (sh_step d w o)) = true.
+Proof.
+  destruct o as [h k|l k|h t|h l|h r|]; cbn [sh_step spec_sh_step spec_update spec_res].
+  - destruct (handle_of w h); cbn; auto.
+  - cbn. auto.
+  - rewrite unmarshal_text_spec. unfold spec_result.
+    destruct (spec_parse t) as [l|]; cbn [option_map is_some];
+      destruct (handle_of w h) as [a|]; cbn; auto.
+  - destruct (handle_of w h) as [a|]; cbn; auto.
+  - destruct (handle_of w h) as [a|] eqn:Eh.
+    + cbn [fst snd]. rewrite after_serve. split.
+      * destruct (spec_names_level r) as [l|]; cbn [option_map]; [now rewrite Eh|].
+        now rewrite cell_store_load_id, with_cells_id.
+      * unfold enc_reply, reply_ok. cbn [sx_nth sx_l nth sx_z sx_b]. rewrite serve_spec.
+        destruct (bytes_eqb (r_method r) s_get) eqn:Hg; cbn [status kind payload].
+        -- now rewrite bytes_eqb_refl, !Z.eqb_refl.
+        -- destruct (spec_names_level r) as [l|]; cbn [status kind payload].
+           ++ now rewrite bytes_eqb_refl, !Z.eqb_refl.
+           ++ rewrite Z.eqb_refl. destruct (bytes_eqb (r_method r) s_put); reflexivity.
+    + cbn [fst snd]. split; [|reflexivity].
+      destruct (spec_names_level r); cbn [option_map]; [now rewrite Eh|reflexivity].
+  - cbn. auto.
+Qed.
+
+Lemma read_holder_spec k v : read_holder d k v = spec_read k v.
+Proof.
+  unfold read_holder, spec_read. rewrite serve_spec.
+  destruct (k =? 1); [reflexivity|]. destruct (k =? 2); reflexivity.
+Qed.
+
+(* what every holder reports is the level of the cell its handle points to, in its own form *)
+Lemma snapshot_spec w : snapshot d w = spec_snapshot w.
+Proof.
+  unfold snapshot, spec_snapshot. f_equal. apply map_ext. intros [k a]. apply read_holder_spec.
+Qed.
+
+Lemma sh_final_spec ops : forall w, sh_final d w ops = spec_sh_final w ops.
+Proof.
+  unfold sh_final, spec_sh_final. induction ops as [|o rest IH]; intros w; [reflexivity|].
+  cbn [fold_left]. destruct (sh_step_spec w o) as [-> _]. apply IH.
+Qed.
+
+Lemma spec_sh_hist_run ops : forall w, spec_sh_hist w ops (sh_run d w ops) = true.
+Proof.
+  induction ops as [|o rest IH]; intros w; [reflexivity|].
+  cbn [sh_run]. destruct (sh_step_spec w o) as [H1 H2].
+  destruct (sh_step d w o) as [w' res]. cbn [fst snd] in H1, H2. subst w'.
+  cbn [spec_sh_hist sx_nth sx_l nth]. rewrite H2, snapshot_spec, sx_eqb_refl. cbn [andb]. apply IH.
+Qed.
+
+(* no operation -- in particular no text decoded into a variable -- re-points, replaces or drops a
+   holder's handle: copies taken earlier stay copies of the same level for ever *)
+Theorem shared_handles_kept_thm w ops h x : nth_error (w_holders w) h = Some x ->
+  nth_error (w_holders (sh_final d w ops)) h = Some x.
+Proof. rewrite sh_final_spec. apply spec_final_nth. Qed.
+
+(* an accepted update through holder h (valid level text, SetLevel, PUT naming a valid level) is in force
+   for EVERY holder of the same cell and for no other holder *)
+Theorem shared_update_thm w o h l a : wf_world w ->
+  spec_update o = Some (h, l) -> handle_of w h = Some a ->
+  forall j aj, handle_of w j = Some aj ->
+    level_seen (fst (sh_step d w o)) j = Some (if Nat.eqb aj a then l else cell_load (w_cells w) aj).
+Proof.
+  intros Hw Hu Hh j aj Hj. destruct (sh_step_spec w o) as [-> _].
+  unfold level_seen. rewrite (spec_step_handle w o j aj Hj). cbn [option_map]. f_equal.
+  destruct (handle_of_in w j aj Hj) as [k Hin].
+  destruct (spec_step_cell w o aj (Hw k aj Hin)) as [-> _].
+  unfold cell_after. rewrite Hu, Hh. rewrite Nat.eqb_sym. reflexivity.
+Qed.
+
+(* anything else -- rejected text, a request that does not name a valid level, a copy, an unrelated
+   new AtomicLevel -- changes the level seen through no holder; rejected text returns an error and
+   leaves the whole world as it was *)
+Theorem shared_rejected_thm w o : wf_world w -> spec_update o = None ->
+  (forall j aj, handle_of w j = Some aj ->
+     level_seen (fst (sh_step d w o)) j = Some (cell_load (w_cells w) aj)) /\
+  (forall h t, o = SText h t -> handle_of w h <> None -> sh_step d w o = (w, of_bool false)).
+Proof.
+  intros Hw Hu. split.
+  - intros j aj Hj. destruct (sh_step_spec w o) as [-> _].
+    unfold level_seen. rewrite (spec_step_handle w o j aj Hj). cbn [option_map]. f_equal.
+    destruct (handle_of_in w j aj Hj) as [k Hin].
+    destruct (spec_step_cell w o aj (Hw k aj Hin)) as [-> _].
+    unfold cell_after. now rewrite Hu.
+  - intros h t -> Hh. cbn [spec_update] in Hu. cbn [sh_step].
+    destruct (handle_of w h) as [a|]; [|congruence].
+    rewrite unmarshal_text_spec. unfold spec_result.
+    destruct (spec_parse t); [discriminate|reflexivity].
+Qed.
+
+(* histories: through every holder one sees the level of the last accepted update addressed to ANY
+   holder of the same cell, else the level the cell held at the start *)
+Theorem shared_history_thm w ops j k a : wf_world w -> nth_error (w_holders w) j = Some (k, a) ->
+  nth_error (w_holders (sh_final d w ops)) j = Some (k, a) /\
+  level_seen (sh_final d w ops) j = Some (last_accepted w ops a (cell_load (w_cells w) a)).
+Proof.
+  intros Hw Hj. rewrite sh_final_spec.
+  pose proof (spec_final_nth ops w j (k, a) Hj) as Hn. split; [exact Hn|].
+  rewrite (level_seen_of _ j k a Hn). f_equal. apply spec_final_cell.
+  apply (Hw k a). eapply nth_error_In, Hj.
+Qed.
+
+(* ... so that all holders of one level agree after every history, whatever the holder each update
+   went through *)
+Theorem shared_agree_thm w ops i j a : wf_world w ->
+  handle_of w i = Some a -> handle_of w j = Some a ->
+  level_seen (sh_final d w ops) i = level_seen (sh_final d w ops) j /\
+  handle_of (sh_final d w ops) i = handle_of (sh_final d w ops) j.
+Proof.
+  intros Hw Hi Hj. unfold handle_of in Hi, Hj.
+  destruct (nth_error (w_holders w) i) as [[ki ai]|] eqn:Ei; cbn in Hi; [|discriminate].
+  destruct (nth_error (w_holders w) j) as [[kj aj]|] eqn:Ej; cbn in Hj; [|discriminate].
+  injection Hi as ->. injection Hj as ->.
+  destruct (shared_history_thm w ops i ki a Hw Ei) as [Ni Li].
+  destruct (shared_history_thm w ops j kj a Hw Ej) as [Nj Lj].
+  split; [now rewrite Li, Lj|]. unfold handle_of. now rewrite Ni, Nj.
+Qed.
+
 (* wire level, parametrically in the tables *)
 Lemma dec_enc_resp o : dec_resp (enc_resp o) = o.
 Proof. destruct o; reflexivity. Qed.
@@ -609,9 +885,24 @@ Theorem spec_model i : wf i = true -> spec i (model i) = true.
 Proof.
   unfold wf, spec, model. set (k := sx_z (sx_nth i 0)).
   rewrite andb_true_iff, !Z.leb_le. intros [Hlo Hhi].
-  assert (Hk : k = 0 \/ k = 1 \/ k = 2) by lia.
-  destruct Hk as [-> | [-> | ->]].
+  assert (Hk : k = 0 \/ k = 1 \/ k = 2 \/ k = 3) by lia.
+  destruct Hk as [-> | [-> | [-> | ->]]].
   - rewrite (model_level_expect G G_checked). apply sx_eqb_refl.
   - rewrite (model_text_expect G G_checked). apply sx_eqb_refl.
   - cbn [sx_l]. apply (spec_hist_run G G_checked).
+  - cbn [sx_l]. apply (spec_sh_hist_run G G_checked).
 Qed.
+
+Lemma init_world_wf init k0 : wf_world (init_world init k0).
+Proof. intros k a [[= <- <-]|[]]. cbn. lia. Qed.
+
+(* the 'deduplicated' UnmarshalText (the receiver is assigned a freshly parsed AtomicLevel): the variable
+   reads debug, the logger built from it before the update still stands at info, and the two no
+   longer share a cell; the oracle rejects exactly that observation *)
+Definition repoint_ops : list sop := [SCopy 0 1; SText 0 [x64; x65; x62; x75; x67]].
+Lemma repoint_splits :
+  let w := fold_left (fun w o => fst (sh_step_repoint G w o)) repoint_ops (init_world 0 0) in
+  level_seen w 0 = Some (-1) /\ level_seen w 1 = Some 0 /\ handle_of w 0 <> handle_of w 1 /\
+  level_seen (sh_final G (init_world 0 0) repoint_ops) 0 = Some (-1) /\
+  level_seen (sh_final G (init_world 0 0) repoint_ops) 1 = Some (-1).
+Proof. vm_compute. repeat split; try reflexivity. discriminate. Qed.
